@@ -363,6 +363,15 @@ func c05(ctx *Ctx) (*Outcome, error) {
 	for i := 0; i < 72; i++ {
 		cases = append(cases, emptyIntervalCase(i))
 	}
+	for i := 0; i < 30; i++ {
+		cases = append(cases, fractionalIntBoundCase(i))
+	}
+	// every keyword pattern once more with --min-sized-ints: the flag changes types, never what a bound means
+	for k, sc := range numericStrata(ctx, "C05-sized", false, []string{"--min-sized-ints"}) {
+		if k%2 == 0 {
+			cases = append(cases, sc)
+		}
+	}
 	n := ctx.N(150, 4000)
 	for i := 0; i < n; i++ {
 		r := sg.NewRng(ctx.Seed, fmt.Sprintf("C05-case-%d", i))
